@@ -275,7 +275,9 @@ fn digitise(sig: &[f64], baseline: i16, delay: usize, noise: f64, r: &mut Rng, l
 
 /// Pack the event into banks under the simulation run number.
 pub fn banks(ev: &FwdEvent) -> BankList {
-    banks_of(&signals(ev), ev.trg_timestamp, ev.noise, ev.noise_seed, ev.chunk_size)
+    // every third event is taken with the ADC data suppression switched on
+    let supp = if ev.noise_seed % 3 == 0 { Some(ev.noise_seed | 1) } else { None };
+    banks_of_run_supp(&signals(ev), SIM_RUN, ev.trg_timestamp, ev.noise, ev.noise_seed, ev.chunk_size, supp)
 }
 
 pub fn banks_of(sig: &Signals, trg_timestamp: u32, noise: f64, noise_seed: u64, chunk_size: usize) -> BankList {
@@ -287,6 +289,14 @@ pub fn banks_of(sig: &Signals, trg_timestamp: u32, noise: f64, noise_seed: u64, 
 /// that the calibrated signals the library sees are the response-shaped pulses. Wires or pads
 /// without a map entry are not sent; without a calibration entry they get the nominal pedestal.
 pub fn banks_of_run(sig: &Signals, run: u32, trg_timestamp: u32, noise: f64, noise_seed: u64, chunk_size: usize) -> BankList {
+    banks_of_run_supp(sig, run, trg_timestamp, noise, noise_seed, chunk_size, None)
+}
+
+/// `supp`: the ADC firmware's data suppression is on (seed of the per-channel post-samples): every
+/// wire's waveform ends a few samples after ITS last sample over threshold (keep_last says
+/// where), so the wires of one event differ in length; a wire that never crosses the threshold
+/// sends the 16-byte form.
+pub fn banks_of_run_supp(sig: &Signals, run: u32, trg_timestamp: u32, noise: f64, noise_seed: u64, chunk_size: usize, supp: Option<u64>) -> BankList {
     struct E {
         trg_timestamp: u32,
         noise: f64,
@@ -305,7 +315,28 @@ pub fn banks_of_run(sig: &Signals, run: u32, trg_timestamp: u32, noise: f64, noi
         let board = &boards::adc_boards()[bi];
         let pedestal = cal.wire_baseline.as_ref().and_then(|m| m.get(w)).map_or(3000, |b| b.round() as i16);
         let wf = digitise(s, pedestal, wire_delay, ev.noise, &mut r, -32768, 32764);
-        let spec = AdcSpec::unsuppressed(board.mac, bi as u8, 128 + ch, wf);
+        let mut spec = AdcSpec::unsuppressed(board.mac, bi as u8, 128 + ch, wf);
+        if let Some(sseed) = supp {
+            let full = spec.samples.len();
+            let thr = (4.0 * ev.noise).max(8.0) as i32;
+            let base = daqmodel::enc::floor_mean64(&spec.samples) as i32;
+            match spec.samples.iter().rposition(|&x| (x as i32 - base).abs() > thr) {
+                None => spec = AdcSpec::suppressed_empty(bi as u8, 128 + ch, (full + 2) as u16),
+                Some(idx) => {
+                    let keep_last = ((idx + 2) / 2 + 1).max(34);
+                    let last_index = (keep_last - 1) * 2 - 2;
+                    let post = Rng::new(sseed ^ (*w as u64).wrapping_mul(0x9E37_79B9_7F4A_7C15)).usize(0, 24);
+                    let len = (idx + 1 + post).max(last_index + 1).max(64).min(full);
+                    if len > last_index && full >= 64 {
+                        spec.samples.truncate(len);
+                        spec.suppression = true;
+                        spec.keep_bit = true;
+                        spec.keep_last = keep_last as u16;
+                        spec.requested_samples = (full + 2) as u16;
+                    }
+                }
+            }
+        }
         out.push((format!("C{}{}", board.name, crate::eventgen::base32_digit(ch)), spec.encode()));
     }
     // pads grouped by (board, chip)
